@@ -25,6 +25,8 @@ type Prog struct {
 	sites      map[*ssa.Function][]ssa.CallInstruction // static call sites of module functions (built lazily)
 	inlineMemo map[calleeKey][]uint32 // per top-level pathMasks call: masks a helper's success returns may carry
 	inlining map[*ssa.Function]bool // helpers currently being looked into by the path engine (recursion guard)
+	Inlined    []inlineNote // helpers unknown to the reference tree that were inlined (or kept, with the reason)
+	InlineFail string
 	Dir   string
 	Tags  string
 	Fset  *token.FileSet
@@ -41,15 +43,15 @@ type Prog struct {
 	fieldStoresBuilt bool
 }
 
-func loadProg(dir, tags string, needCG bool) (*Prog, error) {
-	t0 := time.Now()
+func loadPkgs(dir, tags string, overlay map[string][]byte) ([]*packages.Package, error) {
 	env := append(os.Environ(),
 		"GOFLAGS=-mod=mod", "GOPROXY=off", "GOSUMDB=off", "GOTOOLCHAIN=local", "GOWORK=off")
 	cfg := &packages.Config{
-		Mode:  packages.LoadAllSyntax,
-		Dir:   dir,
-		Env:   env,
-		Tests: false,
+		Mode:    packages.LoadAllSyntax,
+		Dir:     dir,
+		Env:     env,
+		Tests:   false,
+		Overlay: overlay,
 	}
 	if tags != "" {
 		cfg.BuildFlags = []string{"-tags=" + tags}
@@ -74,8 +76,49 @@ func loadProg(dir, tags string, needCG bool) (*Prog, error) {
 		}
 		return nil, fmt.Errorf("type-check errors: %s", strings.Join(errs, "; "))
 	}
+	return pkgs, nil
+}
+
+func loadProg(dir, tags string, needCG bool) (*Prog, error) {
+	t0 := time.Now()
+	pkgs, err := loadPkgs(dir, tags, nil)
+	if err != nil {
+		return nil, err
+	}
+	// functions that are not in the reference tree are inlined into their callers (inline.go)
+	var inlNotes []inlineNote
+	inlFail := ""
+	if os.Getenv("BBL_NO_INLINE") == "" {
+		overlay := map[string][]byte{}
+		for round := 0; round < 4; round++ {
+			il := &inliner{fset: pkgs[0].Fset, counter: round * 1000}
+			changed := il.round(pkgs, overlay)
+			inlNotes = append(inlNotes, il.notes...)
+			if changed == nil {
+				break
+			}
+			next := map[string][]byte{}
+			for k, v := range overlay {
+				next[k] = v
+			}
+			for k, v := range changed {
+				next[k] = v
+			}
+			pk2, err := loadPkgs(dir, tags, next)
+			if err != nil {
+				inlFail = err.Error()
+				if os.Getenv("BBL_DEBUG_INLINE") != "" {
+					for k, v := range changed {
+						os.WriteFile("/tmp/bbl_inline_"+strings.ReplaceAll(strings.TrimPrefix(k, dir), "/", "_"), v, 0o644)
+					}
+				}
+				break
+			}
+			overlay, pkgs = next, pk2
+		}
+	}
 	p := &Prog{Dir: dir, Tags: tags, Pkgs: pkgs, ByPkg: map[string]*packages.Package{},
-		factCache: map[*ssa.Function]*FactInfo{}}
+		factCache: map[*ssa.Function]*FactInfo{}, Inlined: inlNotes, InlineFail: inlFail}
 	for _, pk := range pkgs {
 		p.ByPkg[pk.PkgPath] = pk
 		p.Fset = pk.Fset
